@@ -164,6 +164,7 @@ C13R(c, o) ==
       pl == SelectSeq(evs, LAMBDA e : e.ev = "rt.create_pipeline_layout")
       ps == SelectSeq(evs, LAMBDA e : e.ev = "rt.push_stages")
       real == IF PushGlobals(S) # << >> /\ PushExpected(S) = {} THEN {}   \* a module without entry points: wgpu has nothing to attach the range to
+              ELSE IF PushGlobals(S) # << >> /\ L!SizeOf(S, PushGlobals(S)[1].ty) > 256 THEN {}   \* above the test device's max_push_constant_size: the device's refusal is about the limit
               ELSE { e \in Range(RtOf(o, "wgpu")) : Has(e, "err") /\ e.call = "create_pipeline_layout" /\ ~Has(e, "device") }
   IN [ dom |-> evs # << >> \/ RtOf(o, "wgpu") # << >>, fails |->
        (IF evs = << >> THEN {} ELSE
